@@ -54,7 +54,7 @@ Print Assumptions C06_harness_calls_valid.
    no transfer encoding, and reads all 10 bytes; the heap did change beyond the original objects *)
 Example C06_history_exists :
   run [4;0;-1;-1;1;3;5;1;500] [[1;7;3;10;1;1;0;5;2; 4; 3;3;0; 4;0;100; 5;1000;0; 1;502;0;  2; 3;-1;0; 2;1;5]]
-  = [[-1; 200; 0; 5; 9939108; 0; 2;  1; 7; 10; 0; 1; 0; 5; 3; 24848;  1; 7; 10; 0; 1; 0; 5; 10; 207065394880]]
+  = [[-1; 200; 0; 5; 9939108; 0; 2;  1; 7; 10; 0; 1; 0; 5; 3; 24848;  1; 7; 10; 0; 1; 0; 5; 10; 207065394880; 0; 0]]
   /\ nth 2 (res_heap (serve (dec_cfg [4;0;-1;-1;1;3;5;1;500]) {| fnext := 0; fnames := [] |} [OUrl 7; OHdr [(0,5)]]
         {| q_method := 1; q_url := 0%nat; q_hdr := 1%nat; q_cl := -1; q_te := [1] |} (gen_body 3 10)
         [[EReadBody 3; EScribbleHeader 0 100; EScribbleURL 1000; EWriteHeader 502]; [EReadBody (-1); EWrite 1 5]])) (OUrl 0)
